@@ -83,8 +83,16 @@ impl Scenario {
         match (quick, fine) {
             (true, false) => self.bound(1).deepen(4, 6_000),
             (true, true) => self.bound(2).deepen(5, 6_000),
-            (false, false) => self.bound(2).deepen(5, 120_000),
-            (false, true) => self.bound(3).deepen(6, 150_000),
+            // thorough: sharded by level-1 prefix (the budget is per shard) so that one large scenario does not end up on
+            // a single explorer while the other cores idle
+            (false, false) => {
+                let sh = self.shards.max(4);
+                self.bound(2).deepen(5, 40_000).shards(sh)
+            }
+            (false, true) => {
+                let sh = self.shards.max(3);
+                self.bound(3).deepen(6, 60_000).shards(sh)
+            }
         }
     }
     /// go deeper than `bound` (up to `max`) as long as the whole next level fits into `budget` executions
